@@ -44,6 +44,60 @@ def f4():
 """
     return script("corpus-F4", d, ["a8s", "p"])
 
+def norm(d):
+    # diagrams copied from Rust test sources: strip the common indentation, keep the text otherwise
+    lines = [l.rstrip() for l in d.strip("\n").split("\n")]
+    return "\n".join(l.strip() if i == 0 else l[min(len(x) - len(x.lstrip()) for x in lines[1:]) - 1:] for i, l in enumerate(lines)) + "\n"
+
+SEED_D = """
+5g
+ +-----------------+
+8|               d |
+7|     r         r |
+6|   C E     x     |
+5|                 |
+4|                 |
+3|     x     x     |
+2| R               |
+1| C               |
+ +-----------------+
+   a b c d e f g h
+"""
+SHUF = ["h8w", "p", "a1e", "p", "g8e", "p", "b1w"]
+SEED_C1 = """
+5g
+ +-----------------+
+8|                 |
+7|         e       |
+6|     x     x     |
+5|                 |
+4|                 |
+3| r   x     x     |
+2| R r           d |
+1|               C |
+ +-----------------+
+   a b c d e f g h
+"""
+SEED_C2 = """
+5s
+ +-----------------+
+8| c               |
+7| D           R r |
+6|     x     x   R |
+5|                 |
+4|         E       |
+3|     x     x     |
+2|                 |
+1|                 |
+ +-----------------+
+   a b c d e f g h
+"""
+# regression corpus distilled from seeded defects (seeded/<id>): a capture on the fourth step followed by
+# two returns to the post-capture position; immobilised positions whose only free neighbours are behind rabbits
+open(os.path.join(V, "corpus", "seed_d.script"), "w").write(
+    script("corpus-seed-d", SEED_D.lstrip("\n"), ["a2n", "a3n", "c6s", "c7s"] + SHUF + ["p"] + SHUF + ["p"]))
+open(os.path.join(V, "corpus", "seed_c.script"), "w").write(
+    script("corpus-seed-c1", SEED_C1.lstrip("\n"), []) + script("corpus-seed-c2", SEED_C2.lstrip("\n"), []))
 open(os.path.join(V, "corpus", "F6.script"), "w").write(f6())
 open(os.path.join(V, "corpus", "F4.script"), "w").write(f4())
 print("corpus written")
